@@ -24,6 +24,10 @@ type Case struct {
 	SArgs []string `json:"sargs,omitempty"` // nil: no spec line
 	Tag   string   `json:"tag"`
 	NoM   bool     `json:"no_m,omitempty"` // implementation is compared with the spec only
+	// NoPanic: "never panic, never hang" is part of the property for this case even though it has no
+	// spec line: an implementation `panic` / `timeout` is reported as a property violation (kind "spec",
+	// keyed panic@<innermost repo function>), besides the tie with the model (C07's campaign).
+	NoPanic bool `json:"no_panic,omitempty"`
 }
 
 // ImplFunc runs the real library on the M arguments and renders the canonical output line.
@@ -53,6 +57,9 @@ type Prop struct {
 	Gen func(r *Rng, tier string) []Case
 	// Extra runs checks that do not fit the line protocol (sockets, goroutines); optional.
 	Extra func(ctx *Ctx)
+	// LateOps (optional) is called once by main after every init has run: ops borrowed from other
+	// properties' registrations (C07 runs the decoders of all of them).
+	LateOps func() []OpDef
 }
 
 var props = map[string]*Prop{}
@@ -67,6 +74,17 @@ func hx(b []byte) string {
 	}
 	return hex.EncodeToString(b)
 }
+// exactCap: hand the implementation slices whose capacity equals their length (hex.DecodeString leaves
+// spare capacity, inside which an out-of-range slice expression `b[lo:hi]` does not panic).  Set for a
+// whole run (and inherited by the worker processes through the environment) by properties whose
+// subject is exactly those bounds checks (C07).
+var exactCap = os.Getenv("VERIF_EXACT_CAP") != ""
+
+func setExactCap() {
+	exactCap = true
+	os.Setenv("VERIF_EXACT_CAP", "1")
+}
+
 func unhx(s string) []byte {
 	if s == "-" {
 		return []byte{}
@@ -74,6 +92,12 @@ func unhx(s string) []byte {
 	b, err := hex.DecodeString(s)
 	if err != nil {
 		panic("harness: bad hex token " + s)
+	}
+	if exactCap {
+		// C07 runs: capacity = length, so an out-of-range slice expression panics as on an exact buffer
+		c := make([]byte, len(b))
+		copy(c, b)
+		return c[:len(c):len(c)]
 	}
 	// hand the bytes over as a sub-slice of a larger buffer whose spare capacity holds junk: code that
 	// re-slices past len(), or appends into the caller's array and trusts what it finds there, shows up
@@ -117,6 +141,12 @@ func runImpl(f ImplFunc, args []string, timeout time.Duration) implResult {
 	go func() {
 		defer func() {
 			if r := recover(); r != nil {
+				// a failure of the harness itself (bad token, argument-format assumption) is never a
+				// verdict about the library: it is reported as a machinery error
+				if s, ok := r.(string); ok && strings.HasPrefix(s, "harness:") {
+					ch <- implResult{out: "harness-error", stack: s}
+					return
+				}
 				ch <- implResult{out: "panic", stack: fmt.Sprintf("%v\n%s", r, debug.Stack())}
 			}
 		}()
@@ -373,12 +403,19 @@ func runCases(ctx *Ctx, cases []Case, par int) {
 		if len(res.Samples) < 12 && (i%(len(cases)/12+1) == 0) {
 			res.Samples = append(res.Samples, map[string]any{"op": c.Op, "margs": trunc(c.MArgs), "tag": c.Tag, "impl": truncS(io), "model": truncS(model[i]), "spec": truncS(spec[i])})
 		}
+		if io == "harness-error" || strings.HasPrefix(io, "infra-error") && c.NoPanic {
+			res.Errors = append(res.Errors, fmt.Sprintf("harness failure on case %s %v: %s", c.Op, trunc(c.MArgs), truncS(impl[i].stack+io)))
+			continue
+		}
 		if model[i] == "bad-op" || spec[i] == "bad-op" || spec[i] == "bad-format" {
 			res.Errors = append(res.Errors, fmt.Sprintf("driver rejected a line of case %s %v / %v: model=%q spec=%q", c.Op, trunc(c.MArgs), trunc(c.SArgs), model[i], spec[i]))
 			continue
 		}
 		if c.MArgs != nil && !c.NoM && model[i] != io {
 			ctx.AddMismatch(Mismatch{Kind: "tie", Case: c, Impl: io, Model: model[i], Spec: spec[i], Stack: impl[i].stack, Size: caseSize(c)})
+		}
+		if c.NoPanic && c.SArgs == nil && (io == "panic" || io == "timeout") {
+			ctx.AddMismatch(Mismatch{Kind: "spec", Case: c, Impl: io, Model: model[i], Spec: "*", Stack: impl[i].stack, PanicFn: innermostRepoFunc(impl[i].stack), Size: caseSize(c)})
 		}
 		if c.SArgs != nil {
 			so, key := splitKey(spec[i])
